@@ -1,6 +1,6 @@
 (* Boolean equality on the observable values (used by the correspondence check files that the
    harness output is turned into, and by nothing else). *)
-Require Import V.Base.Prelude V.Amqp.AmqpTypes V.Amqp.AmqpModel.
+Require Import V.Base.Prelude V.Amqp.AmqpTypes V.Amqp.AmqpModel V.Amqp.AmqpSpec.
 Local Open Scope N_scope.
 
 Fixpoint fv_eqb (a b : fv) {struct a} : bool :=
@@ -58,10 +58,40 @@ Definition obs_eqb (a b : obs) : bool :=
   let '(a1, a2, a3, a4) := a in let '(b1, b2, b3, b4) := b in
   outcome_eqb a1 b1 && outcome_eqb a2 b2 && list_eqb item_eqb a3 b3 && list_eqb residue_eqb a4 b4.
 
+(* the frames of a direction as the model decodes them (protocol errors skipped) *)
+Fixpoint frames_of (fuel : nat) (st : stream) : list frame :=
+  match fuel with
+  | O => []
+  | S fuel' =>
+      match read_frame st with
+      | (Ok f, st1) => f :: frames_of fuel' st1
+      | (Err EProto, st1) => frames_of fuel' st1
+      | _ => []
+      end
+  end.
+
+Fixpoint items_match (its : list item) (sis : list sitem) : bool :=
+  match its, sis with
+  | [], [] => true
+  | it :: its', si :: sis' => mview_eqb (it_req it) (fst si) && mview_eqb (it_res it) (snd si) && items_match its' sis'
+  | _, _ => false
+  end.
+
+(* specification test, run on conversations the generator built in normal form: the Coq `normal`
+   predicate accepts them and the model's items are exactly the specification's report *)
+Definition spec_check (c s : bytes) : bool :=
+  let cst := {| sdata := c; stail := TEof |} in
+  let sst := {| sdata := s; stail := TEof |} in
+  let cfs := frames_of (dissect_fuel cst) cst in
+  let sfs := frames_of (dissect_fuel sst) sst in
+  let '(_, _, ms) := dissect_both true cst sst in
+  normal cfs sfs && items_match (items ms) (spec_report cfs sfs).
+
 (* one correspondence case: processing order, both halves, what the implementation did *)
-Record kcase := { k_client_first : bool; k_c : bytes; k_ct : tail; k_s : bytes; k_st : tail; k_obs : obs }.
+Record kcase := { k_client_first : bool; k_c : bytes; k_ct : tail; k_s : bytes; k_st : tail; k_obs : obs; k_normal : bool }.
 Definition kcheck (k : kcase) : bool :=
   obs_eqb (observe (dissect_both (k_client_first k) {| sdata := k_c k; stail := k_ct k |} {| sdata := k_s k; stail := k_st k |}))
-          (k_obs k).
+          (k_obs k)
+  && (if k_normal k then spec_check (k_c k) (k_s k) else true).
 Definition mk_item (by_client : bool) (rq rs : mview) (swapped : bool) : item :=
   {| it_by_client := by_client; it_req := rq; it_res := rs; it_swapped := swapped |}.
